@@ -170,18 +170,26 @@ type groupOp struct {
 	a, b   int    // parameter indices read
 }
 
-// classify analyses fn (whose parameters are all *Element) at the polynomial
-// level under the given aliasing pattern (pattern[i] = index of the first
-// parameter that is the same object) and recognises group operations.
+// classifyGroupFn analyses fn (whose parameters are all *Element) at the polynomial level under the given
+// aliasing pattern (pattern[i] = index of the first parameter that is the same object) and recognises group
+// operations.  A function may branch on the zero-ness of a z coordinate (identity shortcuts): the operation
+// is read off the general path (no operand assumed to be the identity) and every other path must give the
+// same group-law result under its own assumptions.
 func classifyGroupFn(p *load.Prog, m *elemModel, fn *ssa.Function, pattern []int) ([]groupOp, bool) {
 	n := len(fn.Params)
 	pts := make([]pt, n)
+	var sfx []string
 	for i := range pts {
 		pts[i] = symPt(fmt.Sprintf("%d", pattern[i]+1))
+		sfx = append(sfx, fmt.Sprintf("%d", pattern[i]+1))
 	}
-	var ops []groupOp
+	type pathRec struct {
+		hyp     *pathHyp
+		got     []pt // per parameter (nil X for aliased duplicates)
+		general bool
+	}
+	var recs []pathRec
 	ok := true
-	paths := 0
 	explore(p, absint.Config{}, fn, func(it *absint.Interp) []absint.Value {
 		objs := make([]*absint.Object, n)
 		args := make([]absint.Value, n)
@@ -195,10 +203,26 @@ func classifyGroupFn(p *load.Prog, m *elemModel, fn *ssa.Function, pattern []int
 		}
 		return args
 	}, func(res *absint.PathResult) {
-		paths++
-		if res.Exit != "return" || len(res.Guards) > 0 || paths > 1 {
+		if res.Exit != "return" || len(recs) > 16 {
 			ok = false
 			return
+		}
+		for _, e := range res.Events {
+			switch e.Kind {
+			case "precond", "selector", "unmodelled", "top-branch", "bounds":
+				ok = false
+			}
+		}
+		hyp := newPathHyp(res.It, sfx...)
+		if !hyp.ok {
+			ok = false
+			return
+		}
+		rec := pathRec{hyp: hyp, got: make([]pt, n), general: true}
+		for _, as := range res.It.Assumptions() {
+			if as.Val && absint.IszVarName(as.Atom) != "" {
+				rec.general = false
+			}
 		}
 		roots := res.It.InputRoots()
 		ri := 0
@@ -206,50 +230,101 @@ func classifyGroupFn(p *load.Prog, m *elemModel, fn *ssa.Function, pattern []int
 			if pattern[i] != i {
 				continue
 			}
-			c := roots[ri]
+			x, y, z, why := m.coords(res.It, roots[ri])
 			ri++
-			x, y, z, why := m.coords(res.It, c)
 			if why != "" {
 				ok = false
 				return
 			}
-			if x.Equal(pts[i].X) && y.Equal(pts[i].Y) && z.Equal(pts[i].Z) {
-				continue // unchanged
+			rec.got[i] = pt{x, y, z}
+		}
+		recs = append(recs, rec)
+	})
+	if !ok || len(recs) == 0 {
+		return nil, false
+	}
+	candidates := func(i int) []struct {
+		op   groupOp
+		want pt
+	} {
+		var out []struct {
+			op   groupOp
+			want pt
+		}
+		for a := 0; a < n; a++ {
+			out = append(out, struct {
+				op   groupOp
+				want pt
+			}{groupOp{"double", i, a, -1}, rcbDouble(pts[a])})
+			out = append(out, struct {
+				op   groupOp
+				want pt
+			}{groupOp{"neg", i, a, -1}, negPt(pts[a])})
+			for b := a; b < n; b++ {
+				out = append(out, struct {
+					op   groupOp
+					want pt
+				}{groupOp{"add", i, a, b}, rcbAdd(pts[a], pts[b])})
 			}
-			got := pt{x, y, z}
-			found := false
-			var sfx []string
-			for j := 0; j < n; j++ {
-				sfx = append(sfx, fmt.Sprintf("%d", pattern[j]+1))
-			}
-			for a := 0; a < n && !found; a++ {
-				if same, _ := samePoint(got, rcbDouble(pts[a]), sfx...); same && !found {
-					ops = append(ops, groupOp{"double", i, a, -1})
-					found = true
-				}
-				if same, _ := samePoint(got, negPt(pts[a]), sfx...); same && !found {
-					ops = append(ops, groupOp{"neg", i, a, -1})
-					found = true
-				}
-				for b := a; b < n && !found; b++ {
-					if same, _ := samePoint(got, rcbAdd(pts[a], pts[b]), sfx...); same {
-						ops = append(ops, groupOp{"add", i, a, b})
-						found = true
-					}
-				}
-				if !found {
-					if x.Equal(pts[a].X) && y.Equal(pts[a].Y) && z.Equal(pts[a].Z) {
-						ops = append(ops, groupOp{"copy", i, a, -1})
-						found = true
-					}
-				}
-			}
-			if !found {
-				ok = false
+			if a != i {
+				out = append(out, struct {
+					op   groupOp
+					want pt
+				}{groupOp{"copy", i, a, -1}, pts[a]})
 			}
 		}
-	})
-	return ops, ok && paths == 1
+		return out
+	}
+	// read the operations off a general path
+	var gen *pathRec
+	for k := range recs {
+		if recs[k].general {
+			gen = &recs[k]
+			break
+		}
+	}
+	if gen == nil {
+		return nil, false
+	}
+	var ops []groupOp
+	wants := map[int]pt{}
+	for i := 0; i < n; i++ {
+		if pattern[i] != i {
+			continue
+		}
+		g := gen.hyp.pt(gen.got[i])
+		if g.X.Equal(gen.hyp.poly(pts[i].X)) && g.Y.Equal(gen.hyp.poly(pts[i].Y)) && g.Z.Equal(gen.hyp.poly(pts[i].Z)) {
+			continue // unchanged
+		}
+		found := false
+		for _, c := range candidates(i) {
+			if same, _ := samePoint(g, gen.hyp.pt(c.want), sfx...); same {
+				ops = append(ops, c.op)
+				wants[i] = c.want
+				found = true
+				break
+			}
+		}
+		if !found {
+			return nil, false
+		}
+	}
+	// every path must agree
+	for _, rec := range recs {
+		for i := 0; i < n; i++ {
+			if pattern[i] != i {
+				continue
+			}
+			want, changed := wants[i]
+			if !changed {
+				want = pts[i]
+			}
+			if same, _ := samePoint(rec.hyp.pt(rec.got[i]), rec.hyp.pt(want), sfx...); !same {
+				return nil, false
+			}
+		}
+	}
+	return ops, true
 }
 
 func isElemPtr(t types.Type, m *elemModel) bool {
